@@ -21,7 +21,9 @@ type progGen struct {
 	slices  []string // []int
 	maps    []string // map[string]int
 	funcs   []string // func(int, int) int
+	arity   map[string]int // functions defined again with another number of parameters (default 2)
 	fvals   []string // variables holding a function value taken from one of funcs
+	captured map[string]bool // functions whose value was taken (they keep two parameters)
 	long    bool     // many block scopes in one program (local slot numbers grow large)
 	structs bool
 	insts   []string
@@ -73,7 +75,7 @@ func (g *progGen) intExpr(depth int) string {
 			return core.Pick(g.r, g.fvals) + "(" + a + ", " + b + ")"
 		}
 		if len(g.funcs) > 0 {
-			return core.Pick(g.r, g.funcs) + "(" + a + ", " + b + ")"
+			return g.call(core.Pick(g.r, g.funcs), a, b)
 		}
 	case 4:
 		if len(g.insts) > 0 {
@@ -81,6 +83,31 @@ func (g *progGen) intExpr(depth int) string {
 		}
 	}
 	return "(" + a + " + " + b + ") % 1000"
+}
+
+// call renders a call of script function f with its current number of parameters.
+func (g *progGen) call(f, a, b string) string {
+	switch g.arity[f] {
+	case 1:
+		return f + "(" + a + ")"
+	case 3:
+		return f + "(" + a + ", " + b + ", 1)"
+	}
+	return f + "(" + a + ", " + b + ")"
+}
+
+// plain2 picks a function that still has two parameters ("" if none).
+func (g *progGen) plain2() string {
+	var c []string
+	for _, f := range g.funcs {
+		if g.arity[f] == 0 || g.arity[f] == 2 {
+			c = append(c, f)
+		}
+	}
+	if len(c) == 0 {
+		return ""
+	}
+	return core.Pick(g.r, c)
 }
 
 func (g *progGen) boolExpr() string {
@@ -181,17 +208,18 @@ func (g *progGen) scopedStmt() string {
 	}
 	var s string
 	k := g.r.Intn(8)
-	if len(g.funcs) > 0 && g.r.Chance(1, 5) {
+	f2 := g.plain2()
+	if f2 != "" && g.r.Chance(1, 5) {
 		k = 8 + g.r.Intn(2)
 	}
 	switch k {
 	case 8:
 		// a call through a block-scoped function variable
 		h := core.Pick(g.r, []string{"h", "fn", a})
-		s = fmt.Sprintf("if %s := %s; %s(%s, 1) >= 0 - 5000 { %s }", h, core.Pick(g.r, g.funcs), h, g.intExpr(0), acc(h+"(2, "+g.intExpr(0)+")"))
+		s = fmt.Sprintf("if %s := %s; %s(%s, 1) >= 0 - 5000 { %s }", h, f2, h, g.intExpr(0), acc(h+"(2, "+g.intExpr(0)+")"))
 	case 9:
 		h := core.Pick(g.r, []string{"h", "fn"})
-		s = fmt.Sprintf("for _, %s := range []func(int, int) int{%s, %s} { %s }", h, core.Pick(g.r, g.funcs), core.Pick(g.r, g.funcs), acc(h+"(3, "+g.intExpr(0)+")"))
+		s = fmt.Sprintf("for _, %s := range []func(int, int) int{%s, %s} { %s }", h, f2, g.plain2(), acc(h+"(3, "+g.intExpr(0)+")"))
 	case 0:
 		s = fmt.Sprintf("if %s := %s; %s > 3 { %s } else { %s }", a, g.intExpr(1), a, acc(a), acc(a+" + 1"))
 	case 1:
@@ -216,11 +244,21 @@ func (g *progGen) scopedStmt() string {
 // stmt returns one top-level statement (one line).
 func (g *progGen) stmt() string {
 	for {
-		k := g.r.Intn(40)
+		k := g.r.Intn(42)
 		if g.long && g.obs && g.r.Bool() {
 			k = 22
 		}
 		switch k {
+		case 40, 41:
+			// a variable of a struct type (or pointer to it) declared without initialiser and read at once
+			if !g.structs || !g.obs {
+				continue
+			}
+			v := g.id("z")
+			if g.r.Bool() {
+				return fmt.Sprintf("var %s *P; host.Obs(%q, %s == nil, %s)", v, g.id("zp"), v, v)
+			}
+			return fmt.Sprintf("var %s P; host.Obs(%q, %s)", v, g.id("zv"), v)
 		case 37:
 			// a bare call statement of a script function that has a result
 			if len(g.funcs) == 0 {
@@ -229,15 +267,23 @@ func (g *progGen) stmt() string {
 			if len(g.insts) > 0 && g.r.Chance(1, 3) {
 				return core.Pick(g.r, g.insts) + ".Sum(" + g.intExpr(1) + ")"
 			}
-			return core.Pick(g.r, g.funcs) + "(" + g.intExpr(1) + ", " + g.intExpr(1) + ")"
+			return g.call(core.Pick(g.r, g.funcs), g.intExpr(1), g.intExpr(1))
 		case 38, 39:
 			// a function value taken now, called later (the function may be defined again in between)
 			if len(g.funcs) == 0 {
 				continue
 			}
+			f := g.plain2()
+			if f == "" {
+				continue
+			}
 			v := g.id("g")
 			g.fvals = append(g.fvals, v)
-			return fmt.Sprintf("%s := %s", v, core.Pick(g.r, g.funcs))
+			if g.captured == nil {
+				g.captured = map[string]bool{}
+			}
+			g.captured[f] = true
+			return fmt.Sprintf("%s := %s", v, f)
 		case 32:
 			// a script function named like a builtin; later statements call it by that name
 			if !g.obs || g.imports["#print"] {
@@ -296,7 +342,23 @@ func (g *progGen) stmt() string {
 			if len(g.funcs) == 0 {
 				continue
 			}
-			return fmt.Sprintf("func %s(p int, q int) int { return (p + q*%d) %% 1000 }", core.Pick(g.r, g.funcs), 2+g.r.Intn(7))
+			f := core.Pick(g.r, g.funcs)
+			if g.r.Chance(1, 3) && !g.captured[f] {
+				// another number of parameters; every later call uses the new shape
+				if g.arity == nil {
+					g.arity = map[string]int{}
+				}
+				if g.r.Bool() {
+					g.arity[f] = 1
+					return fmt.Sprintf("func %s(p int) int { return (p*%d + 1) %% 1000 }", f, 2+g.r.Intn(7))
+				}
+				g.arity[f] = 3
+				return fmt.Sprintf("func %s(p int, q int, s int) int { return (p + q*%d + s) %% 1000 }", f, 2+g.r.Intn(7))
+			}
+			if g.arity[f] != 0 && g.arity[f] != 2 {
+				continue
+			}
+			return fmt.Sprintf("func %s(p int, q int) int { return (p + q*%d) %% 1000 }", f, 2+g.r.Intn(7))
 		case 31:
 			// a constant computed from a variable that an earlier statement set
 			if len(g.ints) == 0 {
@@ -443,7 +505,7 @@ func (g *progGen) stmt() string {
 			if len(g.funcs) == 0 || len(g.ints) == 0 {
 				continue
 			}
-			return core.Pick(g.r, g.ints) + " = " + core.Pick(g.r, g.funcs) + "(" + g.intExpr(1) + ", " + g.intExpr(1) + ")"
+			return core.Pick(g.r, g.ints) + " = " + g.call(core.Pick(g.r, g.funcs), g.intExpr(1), g.intExpr(1))
 		case 21:
 			if len(g.strs) == 0 {
 				continue
@@ -456,7 +518,7 @@ func (g *progGen) stmt() string {
 func (g *progGen) final() string {
 	if len(g.funcs) > 0 && g.r.Chance(1, 6) {
 		// the last statement is a bare call: a call statement has no value in either strategy
-		return core.Pick(g.r, g.funcs) + "(" + g.intExpr(1) + ", " + g.intExpr(1) + ")"
+		return g.call(core.Pick(g.r, g.funcs), g.intExpr(1), g.intExpr(1))
 	}
 	switch g.r.Intn(4) {
 	case 0:
